@@ -56,9 +56,29 @@ class TopKind(Flow):
     """state = (topset, aliases) ; topset is TOP or a frozenset of kind names;
     aliases = frozenset of local names known to equal ctx.parser_stack[-1]"""
 
+    _cg_cache: dict = {}
+
+    @classmethod
+    def _graph(cls, ctx):
+        key = id(ctx.index)
+        if key not in cls._cg_cache:
+            from ..core.callgraph import CallGraph
+
+            cg = CallGraph(ctx.index)
+            mutators = set()
+            for dotted, m, f in ctx.index.all_functions():
+                for n in walk_no_nested(f):
+                    if isinstance(n, ast.Call) and unparse(n.func) in ("ctx.parser_stack.pop", "ctx.parser_stack.append"):
+                        mutators.add(dotted)
+                    if isinstance(n, ast.Assign) and any(unparse(t) == "ctx.parser_stack" for t in n.targets):
+                        mutators.add(dotted)
+            cls._cg_cache[key] = (cg, cg.reaches(mutators))
+        return cls._cg_cache[key]
+
     def __init__(self, ctx, fnname: str, int_ranges=None):
         self.ctx = ctx
         self.fnname = fnname
+        self.lost_precision = []  # calls that may change the stack in a way the walk does not model
         self.int_ranges = int_ranges or {}  # local name -> (lo, hi) inclusive
         self.kinds = frozenset(all_kinds(ctx))
         self.pushes = []  # (call node, kind name, topset)
@@ -170,7 +190,17 @@ class TopKind(Flow):
         if isinstance(c.func, ast.Attribute) and c.func.attr in STACK_NEUTRAL_METHODS:
             return state
         if f in ("ctx.parser_stack.pop", "ctx.parser_stack.append"):
+            self.lost_precision.append(c)
             return (TOP, frozenset())
+        # resolve the callee: only package functions that can reach a stack mutation matter
+        cg, affecting = self._graph(self.ctx)
+        owner = self.fnname if self.fnname in cg.edges else None
+        if owner is not None:
+            callees = cg.callees_in(owner, c)
+            pkg = {x for x in callees if not x.startswith("%")}
+            if not (pkg & affecting) and "%expander" not in callees:
+                return state
+        self.lost_precision.append(c)
         return (TOP, frozenset())
 
     def transfer_expr(self, node, state):
